@@ -24,6 +24,15 @@ def stages(tier, rng, only=None):
     out.append(ac.stage("random", PID, lambda: ac.cases([ac.random_dataset(rng, 7, 6, nmin=3) for _ in range(n_rand)],
                                                         BIO, SCHEMES + ac.grid_sample(rng, 8),
                                                         namings=["ints", "letters", "collide"]), _nt))
+    out.append(ac.stage("tiny_penalties", PID, lambda: ac.cases(
+        [ac.random_dataset(rng, 6, 6, nmin=3) for _ in range(n_rand // 2)], BIO, ac.TINY,
+        namings=["ints", "letters"]), _nt))
+    out.append(ac.stage("cycles", PID, lambda: ac.cases(
+        [ac.cyclic_dataset(rng, 3, 6, incomplete=k % 2 == 1) for k in range(n_rand // 2)], BIO, SCHEMES,
+        namings=["ints", "letters"]), _nt))
+    out.append(ac.stage("reuse_after_mutation", PID, lambda: ac.reuse_mutate_cases(
+        grids.datasets(3, 2)[::4] + [ac.random_dataset(rng, 6, 5, nmin=3) for _ in range(n_rand // 3)], BIO, SCHEMES,
+        rng, flags=(1, 0)), _nt))
     if tier == "thorough":
         out.append(ac.stage("grid3x3", PID, lambda: ac.cases(grids.datasets(3, 3), ["BioConsert", "BioCo"], SCHEMES,
                                                              flags=(0,)), _nt))
